@@ -57,7 +57,61 @@ const (
 	KExitBeforeRead = "exit-before-read" // exit before reading the request of this step
 	KExitAfterRead  = "exit-after-read"  // read the request, exit without replying
 	KExitAfterReply = "exit-after-reply" // conforming reply, then exit at once
+	KFlood          = "flood"            // instead of the reply: Flood bytes of junk on stdout in one write, then exit
+	// KReplyFlood is not a scripted kind but the name under which the fake
+	// plugin logs the Flood modifier of a step whose kind replies in full: the
+	// reply of the kind, then Flood bytes of junk in one write, then exit.
+	KReplyFlood = "reply-then-flood"
 )
+
+// Junk patterns of a flood (Step.FloodPat). What matters is what a host that
+// reads the junk as frames makes of it: zero bytes are a run of empty frames
+// (the host consumes four bytes per request and leaves the rest in the pipe);
+// 0xff and text announce a frame far longer than the junk (the host reads
+// everything and then meets EOF); half-frame announces half of the junk (the
+// host consumes that much and leaves the rest).
+const (
+	FloodZero      = "zero"
+	FloodFF        = "ff"
+	FloodText      = "text"
+	FloodHalfFrame = "half-frame"
+)
+
+// FloodPats lists the junk patterns.
+var FloodPats = []string{FloodZero, FloodFF, FloodText, FloodHalfFrame}
+
+// PipeBuffer is the default capacity of a Linux pipe: a plugin with more
+// unread output than this is blocked in write(2) until the host reads or
+// closes the pipe.
+const PipeBuffer = 64 << 10
+
+// FloodBytes builds n bytes of junk of a pattern.
+func FloodBytes(pat string, n int) []byte {
+	if n < 0 {
+		n = 0
+	}
+	b := make([]byte, n)
+	switch pat {
+	case FloodFF:
+		for i := range b {
+			b[i] = 0xff
+		}
+	case FloodText:
+		const line = "debug: plugin report line, nobody is going to read this\n"
+		for i := range b {
+			b[i] = line[i%len(line)]
+		}
+	case FloodHalfFrame:
+		for i := range b {
+			b[i] = 0x5a
+		}
+		if n >= 4 {
+			h := uint32(n / 2)
+			b[0], b[1], b[2], b[3] = byte(h>>24), byte(h>>16), byte(h>>8), byte(h)
+		}
+	}
+	return b
+}
 
 // Write modes of a reply.
 const (
@@ -87,6 +141,20 @@ type Step struct {
 	At          int               `json:"at,omitempty"`       // truncate
 	Prefix      uint32            `json:"prefix,omitempty"`   // oversize
 	Message     string            `json:"message,omitempty"`  // exception
+	// Flood > 0: with kind flood, that many bytes of junk instead of the
+	// reply; with a kind that replies in full, that many bytes of junk right
+	// after the reply. Either way one write (no segmentation), then exit -
+	// which with more than a pipe buffer of junk only happens once the host
+	// has read it or closed the pipe. Ignored with the other kinds.
+	Flood    int    `json:"flood,omitempty"`
+	FloodPat string `json:"flood_pat,omitempty"`
+}
+
+// FloodsAfter reports whether the step (of the protocol step called step)
+// dumps junk after a complete reply.
+func (st Step) FloodsAfter(step string) bool {
+	k := Normalize(step, st.Kind)
+	return st.Flood > 0 && k != KFlood && RepliesInFull(k)
 }
 
 // Script is the whole behaviour of one fake plugin process.
@@ -98,10 +166,24 @@ type Script struct {
 	LingerMs   int  `json:"linger_ms,omitempty"`   // sleep between stdin EOF and exit
 }
 
-// Plugin is a named script.
+// Plugin is a named script. Several plugins of one host run may carry the same
+// Name: they are instances of one plugin executable started with different
+// arguments (-p "doc --lang=en" -p "doc --lang=de"), told apart by Instance
+// (passed as --instance=<Instance>; at most one of them may leave it empty).
+// All of them answer the handshake with Name.
 type Plugin struct {
-	Name   string `json:"name"`
-	Script Script `json:"script"`
+	Name     string `json:"name"`
+	Instance string `json:"instance,omitempty"`
+	Script   Script `json:"script"`
+}
+
+// ID names the plugin process in the event log and selects its script file:
+// Name, or Name@Instance.
+func (p Plugin) ID() string {
+	if p.Instance == "" {
+		return p.Name
+	}
+	return p.Name + "@" + p.Instance
 }
 
 // StepOf returns the step called name.
@@ -117,7 +199,7 @@ func (s *Script) StepOf(name string) *Step {
 
 // Event is one line of the event log.
 type Event struct {
-	Plugin string `json:"plugin"`
+	Plugin string `json:"plugin"` // Plugin.ID of the process
 	Pid    int    `json:"pid"`
 	N      int    `json:"n"` // per-process counter
 	T      int64  `json:"t"` // unix nanoseconds (informational only)
@@ -133,10 +215,11 @@ type Event struct {
 // Event names.
 const (
 	EvStart      = "start"
-	EvRequest    = "request"     // a complete, well-formed request was read
-	EvBadRequest = "bad-request" // a frame that is not a strict Call envelope / unknown method
-	EvFault      = "fault"       // a step kind other than ok is about to be executed
-	EvReply      = "reply"       // a reply was written completely (Detail carries a write error)
+	EvRequest    = "request"       // a complete, well-formed request was read
+	EvBadRequest = "bad-request"   // a frame that is not a strict Call envelope / unknown method
+	EvFault      = "fault"         // a step kind other than ok is about to be executed
+	EvReply      = "reply"         // a reply was written completely (Detail carries a write error)
+	EvFlood      = "flood-written" // the junk of a flood was written or the write failed (Detail)
 	EvEOF        = "stdin-eof"
 	EvExit       = "exit"
 	EvError      = "error"     // harness problem inside the fake plugin (no script, ...)
@@ -332,8 +415,21 @@ func IsFailure(step, kind string) bool {
 		return false
 	case KExitAfterReply:
 		return step != StepGoodbye
+	case KReplyFlood:
+		// junk where the next reply is expected; after the goodbye reply
+		// nothing is expected any more (see Ambiguous)
+		return step != StepGoodbye
 	}
 	return true
+}
+
+// Ambiguous reports whether the statement leaves open if executing kind at
+// step makes the plugin a failed plugin: junk on stdout after a conforming
+// goodbye reply (the protocol is over; a real plugin would die of SIGPIPE,
+// the fake one exits with its scripted status). Neither a failing nor a
+// succeeding host is wrong then - but it must still terminate and reap.
+func Ambiguous(step, kind string) bool {
+	return step == StepGoodbye && kind == KReplyFlood
 }
 
 // staysAfter reports whether the plugin keeps reading after executing kind.
@@ -383,7 +479,7 @@ func Predict(ps []Plugin) Prediction {
 		}
 		// the plugin leaves after its handshake reply when told so, or when
 		// the next step it waits for says exit-before-read
-		gone := hs == KExitAfterReply || gen == KExitBeforeRead
+		gone := hs == KExitAfterReply || gen == KExitBeforeRead || p.Script.Handshake.FloodsAfter(StepHandshake)
 		phase := ""
 		if pr.AllHandshakesOK && p.Advertises() {
 			pr.Generate[i] = true
@@ -395,6 +491,9 @@ func Predict(ps []Plugin) Prediction {
 				gone = !staysAfter(gen)
 			default:
 				gone = !staysAfter(gen) || bye == KExitBeforeRead
+			}
+			if p.Script.Generate.FloodsAfter(StepGenerate) && (phase == "" || !gone) {
+				gone = true
 			}
 		}
 		if phase == "" && (gone || IsFailure(StepGoodbye, bye)) {
